@@ -15,6 +15,7 @@ Three cores:
 import Wz.Proofs.C16_Table
 import Wz.Proofs.C16_Readdir
 import Wz.Proofs.C16_Content
+import Wz.Model.RefFSTimes
 
 namespace Wz.C16
 open Wz.Model.FdTable Wz.Proofs.C16Table
@@ -390,5 +391,39 @@ theorem dirfd_rename_witness :
     ((f24History true).mkdir 4 ["x"]).2 = .noent ∧
     ((f24History false).mkdir 4 ["x"]).2 = .ok ∧
     (((f24History false).mkdir 4 ["x"]).1.pathStat 3 ["b", "x"]).1 = .ok := by decide
+
+/-! ## explicit modification times through a descriptor (`fd_filestat_set_times`, `Wz.Model.RefFSTimes`) -/
+
+open Wz.Model.RefFS in
+/-- Setting times through a descriptor succeeds exactly when the descriptor is open - whatever was done with it
+before (a directory listing does not make it stale) - and a successful call is read back through it. -/
+theorem set_times_succeeds_iff_open_and_reads_back (fs : FS) (ts : Times) (fd : Int) (t : Nat) :
+    ((fs.fdSetTimes ts fd t).2 = .ok ↔ ∃ id d, fs.desc fd = .ok (id, d)) ∧
+    ((fs.fdSetTimes ts fd t).2 = .ok → fs.fdMtime (fs.fdSetTimes ts fd t).1 fd = (.ok, some t)) := by
+  unfold FS.fdSetTimes FS.fdMtime
+  cases h : fs.desc fd with
+  | error e =>
+    have hne : e ≠ E.ok := by
+      intro he
+      subst he
+      unfold FS.desc at h
+      repeat' split at h
+      all_goals simp at h
+    simp [hne]
+  | ok p => simp [aget_aset_same]; exact ⟨p.1, p.2, rfl⟩
+
+open Wz.Model.RefFS in
+/-- … and it changes the time of that inode only. -/
+theorem set_times_leaves_other_inodes (fs : FS) (ts : Times) (fd fd' : Int) (t : Nat) (id id' : Nat) (d d' : Desc)
+    (h : fs.desc fd = .ok (id, d)) (h' : fs.desc fd' = .ok (id', d')) (hne : d'.ino ≠ d.ino) :
+    fs.fdMtime (fs.fdSetTimes ts fd t).1 fd' = fs.fdMtime ts fd' := by
+  unfold FS.fdSetTimes FS.fdMtime
+  simp [h, h', aget_aset_other _ _ _ _ hne]
+
+-- non-vacuity (test on a sample): descriptor 3 (the pre-open) of the initial file system
+open Wz.Model.RefFS in
+example : ((FS.init false).fdSetTimes [] 3 77).2 = E.ok ∧
+    (FS.init false).fdMtime ((FS.init false).fdSetTimes [] 3 77).1 3 = (E.ok, some 77) := by
+  decide
 
 end Wz.C16
